@@ -8,7 +8,7 @@ ID = "C03"
 LEVEL = "exploration"
 RULE = ("same-size families: every multiset of n files (n<=3 quick, <=5 thorough) over the variants {base, flipped at 0, "
         "at L/2, at L-1, at 4096} for L in {1,4096,4097,65536,131073}, laid out over 1-3 directories and 1-2 roots (one layout puts the second root on a loop-mounted ext4 image, i.e. a second device with its own hashing pool and its own pinned kind; one puts the files on two fresh tmpfs instances below one root, where the k-th files have equal inode numbers on different file systems), with "
-        "optional hard links and repeated / overlapping roots; trees of files with equal base names in different directories under a $IN transform and pools of 4-8 threads; plus three trees whose paths concatenate to the same bytes (ab/c vs a/bc; as hard links, plain copies and directories, also with -L / -H); x replication filter {default, --rf-over 0/2/3, "
+        "optional hard links and repeated / overlapping roots; trees of files with equal base names in different directories under a $IN transform and pools of 4-8 threads; overlapping input paths in several orders under --depth 1 / 2 with walking pools of one thread; plus three trees whose paths concatenate to the same bytes (ab/c vs a/bc; as hard links, plain copies and directories, also with -L / -H); x replication filter {default, --rf-over 0/2/3, "
         "--rf-under 2/3, --unique} x prefix/suffix sizes, disk kind, transform {keep, shrink to two bytes (also with -H)} (thorough: hash, cache, -t 1). "
         "Oracle: independent partition of the scanned files by bytes + replica count + strict filter; the reported set of "
         "path sets must be equal; no path twice; no unscanned path. Non-trivial = expected result has at least one "
@@ -130,6 +130,18 @@ def cases(tier, seed):
                     meta = {"L": L, "combo": variants_, "layout": "same_base_names", "hard": False,
                             "filter": " ".join(flt) or "default", "disk": "ssd", "extra": threads, "tr": ["keep", "in"]}
                     out.append({"tree": tree, "roots": ["r1"], "args": ["--min", "0"] + flt + threads + G.transform_args("keep", "in"),
+                                "env": {"FCLONES_VERIF_DISK_KIND": "ssd"}, "meta": meta, "repeat": 2})
+    # overlapping input paths under a depth limit: what one root may not descend into, another root reaches directly
+    tree = [{"p": "r1/f0", "k": "file", "c": ["base", 10, 0]}, {"p": "r1/d1/f1", "k": "file", "c": ["base", 10, 0]},
+            {"p": "r1/d1/sub/f2", "k": "file", "c": ["base", 10, 0]}, {"p": "r1/d1/sub/deep/f3", "k": "file", "c": ["base", 10, 0]},
+            {"p": "r1/d2/f4", "k": "file", "c": ["flip", 10, 0, 9]}, {"p": "r1/d1/f5", "k": "file", "c": ["flip", 10, 0, 9]}]
+    for order in (["r1", "r1/d1"], ["r1/d1", "r1"], ["r1/d1/sub", "r1/d1", "r1"], ["r1", "r1/d1/sub"]):
+        for depth in ("1", "2"):
+            for pool in ([], ["-t", "main:1"], ["-t", "1"]):
+                for flt in ([], ["--rf-over", "0"], ["--unique"]):
+                    meta = {"L": 10, "combo": [int(depth)], "layout": "overlap_depth:" + ",".join(order), "hard": False,
+                            "filter": " ".join(flt) or "default", "disk": "ssd", "extra": ["--depth", depth] + pool, "tr": None}
+                    out.append({"tree": tree, "roots": order, "args": ["--min", "0", "--depth", depth] + pool + flt,
                                 "env": {"FCLONES_VERIF_DISK_KIND": "ssd"}, "meta": meta, "repeat": 2})
     # paths whose components concatenate to the same bytes (ab/c vs a/bc): as hard links of one file, as plain
     # duplicates, and as directories entered with -L
